@@ -135,6 +135,7 @@ func main() {
 	count := flag.Bool("count", false, "print the number of cases and exit")
 	verbose := flag.Bool("v", false, "print each case result to stderr")
 	emitObs := flag.Bool("emitobs", false, "emit an observation digest per case")
+	stride := flag.Int("stride", 1, "consider only global indices divisible by this (sharding applies to index/stride)")
 	flag.Parse()
 
 	var c *Check
@@ -187,7 +188,7 @@ func main() {
 				if g != *only {
 					continue
 				}
-			} else if g < *from || g%*nshards != *shard {
+			} else if g < *from || g%*stride != 0 || (g / *stride)%*nshards != *shard {
 				continue
 			}
 			if !r.deadline.IsZero() && time.Now().After(r.deadline) {
